@@ -283,6 +283,10 @@ class SimKernel(object):
             rec["failed"] = True
             rec["pid"] = None
             self.spawn_log.append(rec)
+            if beh.get("exec_fail") == 'value':
+                # what a misconfigured rlimit / unknown user / unbalanced
+                # quote gives: the spawn fails before anything is forked
+                raise ValueError("simulated spawn failure (ValueError)")
             raise OSError(errno.ENOENT, "simulated exec failure")
         pid = self.add_proc(DAEMON_PID, beh, 'worker', rec, owner)
         rec["pid"] = pid
